@@ -210,6 +210,14 @@ def checkAnyPath (n : Nat) (es : List WEdge) (s t : Nat) (o : Option (List Nat))
      | u :: rest => u == s && lastOf u rest == t && (walkMinW es u rest).isSome)
   | none => !reachB n es s t
 
+/-- finiteness pattern of an all-pairs matrix (`1` = finite): entry `(i, j)` is finite exactly when
+`j` is reachable from `i`.  Used where the distances themselves are inexact doubles. -/
+def checkSupport (n : Nat) (es : List WEdge) (M : List (List Nat)) : Bool :=
+  validW n es && M.length == n &&
+  (List.range n).all fun i =>
+    (M.getD i []).length == n &&
+    (List.range n).all fun j => ((M.getD i []).getD j 0 == 1) == reachB n es i j
+
 /-! ### Minimum spanning forests (kruskal) -/
 
 def sublists {α} : List α → List (List α)
